@@ -425,6 +425,12 @@ def blocks (H : List Nat → η) (s : Frag η) : Frag η × List (Nat × η) :=
   let r := blocksLoop H (s.bits.length + 1) s.bits s.sums []
   ({ s with sums := r.2 }, r.1)
 
+/-- Close + Open of the fragment (restart of the holder / field / view): the storage file is read
+back, `Open` starts with an empty row cache and an empty checksum map, and `view.newFragment`
+gives the fragment the mutex vector of its field type again — the kind is a property of the
+field (persisted in its meta file), not of the open fragment. -/
+def reopen (s : Frag η) : Frag η := { s with rowCache := [], sums := [] }
+
 /-- `InvalidateChecksums()`. -/
 def invalidateChecksums (s : Frag η) : Frag η := { s with sums := [] }
 
@@ -441,6 +447,7 @@ inductive Op
   | setValue (c depth : Nat) (v : Int)
   | clearValue (c depth : Nat) (v : Int)
   | snapshot
+  | reopen
   | invalidateChecksums
   | row (r : Nat)
   | bit (r c : Nat)
@@ -475,6 +482,7 @@ def step (H : List Nat → η) (s : Frag η) : Op → Frag η × Out η
   | .setValue c depth v => let x := setValueBase s c depth v false; (x.1, .w x.2)
   | .clearValue c depth v => let x := setValueBase s c depth v true; (x.1, .w x.2)
   | .snapshot => (snapshot s, .w .ok)
+  | .reopen => (reopen s, .w .ok)
   | .invalidateChecksums => (invalidateChecksums s, .w .ok)
   | .row r => let x := row s r; (x.1, .cols x.2)
   | .bit r c => (s, .bool (bit s r c))
